@@ -61,7 +61,7 @@ TrPut == IsEvent("Put") /\ LET e == Trace[l] IN
   /\ UNCHANGED <<keyver, removedBy, applied, sigok, sup>>
   /\ Always(e)
   /\ (e.res = "ok" => Report("C05.IdFresh", e.id >= nextId /\ e.id \notin DOMAIN msgs /\ e.id \in DOMAIN msgs'))
-  /\ Conf("Put", e.res = "ok" /\ e.id = nextId /\ AbsMsgs(msgs') = AbsMsgs([i \in DOMAIN msgs \cup {nextId} |-> IF i = nextId THEN NewMsg(e.args.kind) ELSE msgs[i]]))
+  /\ Conf("Put", e.res = "ok" /\ e.id >= nextId /\ AbsMsgs(msgs') = AbsMsgs([i \in DOMAIN msgs \cup {e.id} |-> IF i = e.id THEN NewMsg(e.args.kind) ELSE msgs[i]]))   \* ids may be skipped: the chain queues messages of its own (valset updates after a snapshot rebuild)
 
 \* generic message step: bind, keep bookkeeping, monitors, conformance with the spec action evaluated on the abstracted messages
 Step(act, actres, ModelMsgs(_), modelOk(_)) == IsEvent(act) /\ LET e == Trace[l] IN
@@ -71,9 +71,9 @@ Step(act, actres, ModelMsgs(_), modelOk(_)) == IsEvent(act) /\ LET e == Trace[l]
   /\ Conf(actres, (e.res = "ok") = modelOk(e.args))
   /\ ConfD(act, AbsMsgs(msgs') = AbsMsgs(ModelMsgs(e.args)), <<AbsMsgs(msgs'), AbsMsgs(ModelMsgs(e.args))>>)
 
-SignOk(a) == a.id \in DOMAIN msgs /\ a.v \notin jailed /\ a.mode = "good" /\ msgs[a.id].kind = "slc" /\ ~\E s \in msgs[a.id].sigs : s.val = a.v
+SignOk(a) == a.id \in DOMAIN msgs /\ a.v \notin jailed /\ a.mode = "good" /\ msgs[a.id].kind \in Signable /\ ~\E s \in msgs[a.id].sigs : s.val = a.v
 SignMsgs(a) == IF SignOk(a) THEN [msgs EXCEPT ![a.id].sigs = @ \cup {[val |-> a.v, key |-> "new", ver |-> Version(msgs[a.id])]}] ELSE msgs
-EstOk(a) == a.id \in DOMAIN msgs /\ a.v \notin jailed /\ msgs[a.id].kind = "slc" /\ msgs[a.id].ests[a.v] = None /\ a.x >= 1
+EstOk(a) == a.id \in DOMAIN msgs /\ a.v \notin jailed /\ msgs[a.id].kind \in Signable /\ msgs[a.id].ests[a.v] = None /\ a.x >= 1
 EstMsgs(a) == IF EstOk(a) THEN [msgs EXCEPT ![a.id].ests[a.v] = a.x] ELSE msgs
 EvOk(a) == a.id \in DOMAIN msgs /\ a.v \notin jailed
 EvMsgs(a) == IF EvOk(a) THEN [msgs EXCEPT ![a.id].ev[a.v] = a.e] ELSE msgs
@@ -101,7 +101,7 @@ TrReassign == IsEvent("Reassign") /\ LET e == Trace[l] IN
   /\ Always(e)
   /\ Report("C04.ReassignKeepsElection", \A id \in DOMAIN msgs : id \in DOMAIN msgs' /\ msgs'[id].elected = msgs[id].elected
                                             /\ msgs'[id].ests = msgs[id].ests /\ msgs'[id].ev = msgs[id].ev)
-  /\ Conf("Reassign", AbsMsgs(msgs') = AbsMsgs([id \in DOMAIN msgs |-> IF msgs[id].kind = "slc" /\ ~msgs[id].pad /\ ~msgs[id].err
+  /\ Conf("Reassign", AbsMsgs(msgs') = AbsMsgs([id \in DOMAIN msgs |-> IF msgs[id].kind \in Signable /\ ~msgs[id].pad /\ ~msgs[id].err
                                                                        THEN [msgs[id] EXCEPT !.sigs = {}] ELSE msgs[id]]))
 
 TrAdvance == IsEvent("Advance") /\ LET e == Trace[l] IN
